@@ -10,6 +10,7 @@ import (
 
 var cmds = map[string]func([]string) error{
 	"c03": props.C03,
+	"c04": props.C04,
 	"c14": props.C14,
 	"c16": props.C16,
 	"c19": props.C19,
